@@ -16,14 +16,17 @@ IsEvent(e) == l <= Len(Rec) /\ Rec[l].ev = e /\ l' = l + 1
 
 PtLen == IF "PTLEN" \in DOMAIN IOEnv THEN IOEnv.PTLEN ELSE "0"
 
+\* CMP_L = "0": operation labels and separator texts are not compared (they are C06 / C18 matters); kinds, order and payload
+\* identity still are
+CmpL == ~("CMP_L" \in DOMAIN IOEnv /\ IOEnv.CMP_L = "0")
 OpMatch(r, e) ==
   /\ r.o = e.o /\ r.f = e.f
-  /\ e.o \in {"A", "C"} => r.l = e.l
+  /\ (CmpL /\ e.o \in {"A", "C"}) => r.l = e.l
   /\ e.o = "A" =>
        CASE e.t = "pt"  -> Has(r, "pt") /\ r.pt = e.v
          [] e.t = "sc"  -> Has(r, "sc") /\ r.sc = e.v
          [] e.t = "u64" -> Has(r, "u64") /\ r.u64 = e.v /\ r.len = 8
-         [] e.t = "str" -> Has(r, "str") /\ r.str = e.v
+         [] e.t = "str" -> Has(r, "str") /\ (CmpL => r.str = e.v)
          [] e.t = "raw" -> Has(r, "raw") /\ r.raw = e.v
 OpsMatch(logged, model) ==
   /\ Len(logged) = Len(model)
